@@ -1310,6 +1310,9 @@ pub struct ArchiveFailSafeReader<'a, R: 'a + Read> {
 }
 
 // Size of the repaired file blocks
+#[cfg(feature = "mla_verif")]
+const CACHE_SIZE: usize = 512;
+#[cfg(not(feature = "mla_verif"))]
 const CACHE_SIZE: usize = 8 * 1024 * 1024; // 8MB
 
 /// Used to update the error state only if it was `NoError`
